@@ -1,4 +1,4 @@
-//@serves C03 C05 C14 C13 C02 C10 C11
+//@serves C03 C05 C14 C13 C02 C10 C11 C12 C01
 //@tier A
 //@include prelude/head.rs
 verus! {
@@ -55,8 +55,8 @@ pub mod utils {
 impl Resolver {
 //@use resolvers.Resolver.resolve
 //@use resolvers.Resolver.open
-    pub fn default_resolver() -> Resolver { Resolver { backend: ResolverBackend::EmulatedOpath, flags: ResolverFlags { bits: 0 } } }
 }
+//@include prelude/resolver_cfg.rs
 
 //@item src/root.rs :: enum InodeType | sub.InodeType
 //@item src/root.rs :: enum RemoveInodeType | sub.RemoveInodeType
